@@ -161,17 +161,21 @@ def split_lengths(tree, bit_of, rooted):
     """split -> length of *the* edge of the (un)rooted tree inducing it: edges of the
     drawing that induce the same split (unifurcation chains, the two edges below a
     bifurcating seed of an unrooted tree) are one edge of the tree, so their lengths
-    add up; a missing length counts 0.  Second value: True iff some non-seed edge
-    contributing to the split has length None."""
+    add up; a missing length counts 0.  Second value: True iff the edge of the TREE has no
+    length at all, i.e. every non-seed edge of the drawing that contributes to the split has
+    length None (one half of a basal pair, or one link of a unifurcation chain, without a
+    length next to another with one is a drawing of an edge that has a length)."""
     fill = node_mask(tree._seed_node, bit_of)
     out = {}
-    missing = {}
+    some, none = {}, {}
     for n in S.pre(tree._seed_node):
         s = expected_split(node_mask(n, bit_of), fill, rooted)
         l = S.elen(n)
         out[s] = out.get(s, 0) + (l if l is not None else 0)
-        if l is None and n._parent_node is not None:
-            missing[s] = True
-        else:
-            missing.setdefault(s, False)
+        if n._parent_node is not None:
+            if l is None:
+                none[s] = True
+            else:
+                some[s] = True
+    missing = dict((s, bool(none.get(s)) and not some.get(s)) for s in out)
     return out, missing
